@@ -38,10 +38,10 @@ def run(ctx):
         def hist_judge():
             # the history Judge accepts every behaviour of the Model (guards against an over-strict Judge)
             r = vlib.tlc(P.MC, "Pbf_hist_big.cfg", ctx.scratch, workers=4, timeout=1800,
-                         args=["-simulate", "num=%d" % (12 if q else 1500), "-depth", "100", "-seed", str(ctx.seed)])
+                         args=["-simulate", "num=%d" % (12 if q else 120), "-depth", "100", "-seed", str(ctx.seed)])
             if r.rc != 0:
                 raise vlib.Infra("Model does not satisfy its own history Judge:\n" + r.out[-4000:])
-            ctx.extra["model_histories_judged"] = 4 * (12 if q else 1500)
+            ctx.extra["model_histories_judged"] = 4 * (12 if q else 120)
         with cf.ThreadPoolExecutor(max_workers=8) as ex:
             fs = [ex.submit(P.model_check, ctx, [c]) for c in (["Pbf_stop_q.cfg"] if q else ["Pbf_stop.cfg", "Pbf_stop_both.cfg", "Pbf_stop_big.cfg"])]
             fs += [ex.submit(P.model_must_fail, ctx, "Pbf_pinned_loop.cfg", "ReadAheadInv"),
